@@ -134,6 +134,8 @@ class World:
             "lattice.__getstate__": (lambda: l.__getstate__(), True),
             "graph_utils.reorder_vertices": (lambda: gu.reorder_vertices(l, w.perm), True),
             "graph_utils.make_dual": (lambda: gu.make_dual(l), True),
+            "graph_utils.make_dual(point averages)": (lambda: gu.make_dual(l, True), True),
+            "plotting.plot_dual(after duals)": (lambda: pl.plot_dual(l, ax=fig_ax()), False),
             "graph_utils.plaquette_spanning_tree": (lambda: gu.plaquette_spanning_tree(l, False), True),
             "graph_utils.plaquette_spanning_tree(shortest)": (lambda: gu.plaquette_spanning_tree(l, True), True),
             "graph_utils.remove_vertices": (lambda: gu.remove_vertices(l, w.idx, True), True),
